@@ -374,28 +374,51 @@ func (fr *Frame) mergeStates(sts []*State) *State {
 			break
 		}
 	}
-	// package-heap havocs: a package havocked on some incoming path counts as havocked
+	// package-heap havocs: where the incoming paths disagree about a package's heaps, the merged
+	// state gets a new epoch for that package whose heaps are the per-path ones (defined lazily
+	// in epochHeap from the recorded parts)
+	effEpoch := func(s *State, p string) int {
+		ep := s.epoch
+		if e, ok := s.pfx[p]; ok && e > ep {
+			ep = e
+		}
+		return ep
+	}
+	pkgs := map[string]bool{}
 	for _, s := range sts {
-		for p, ep := range s.pfx {
-			if out.pfx == nil {
-				out.pfx = map[string]int{}
-			}
-			if cur, ok := out.pfx[p]; !ok || cur == ep {
-				out.pfx[p] = ep
-			} else {
-				fr.top.nepoch++
-				out.pfx[p] = fr.top.nepoch
-			}
+		for p := range s.pfx {
+			pkgs[p] = true
 		}
 	}
-	for p := range out.pfx {
-		for _, s := range sts {
-			if _, ok := s.pfx[p]; !ok {
-				fr.top.nepoch++
-				out.pfx[p] = fr.top.nepoch
-				break
+	var pnames []string
+	for p := range pkgs {
+		pnames = append(pnames, p)
+	}
+	sort.Strings(pnames)
+	for _, p := range pnames {
+		same := true
+		first := effEpoch(sts[0], p)
+		for _, s := range sts[1:] {
+			if effEpoch(s, p) != first {
+				same = false
 			}
 		}
+		if out.pfx == nil {
+			out.pfx = map[string]int{}
+		}
+		if same && !epochsDiffer {
+			if first > out.epoch {
+				out.pfx[p] = first
+			}
+			continue
+		}
+		fr.top.nepoch++
+		var parts []epochPart
+		for _, s := range sts {
+			parts = append(parts, epochPart{s.pc, effEpoch(s, p)})
+		}
+		fr.top.epochMerge[fr.top.nepoch] = parts
+		out.pfx[p] = fr.top.nepoch
 	}
 	// cells
 	keys := map[int]bool{}
